@@ -30,8 +30,8 @@ const ASYNC_STMTS = new Set(['async', 'async_fn'])
 const GEN_STMTS = new Set(['generator'])
 
 function mkLeaf (fam, p) {
-  const leaf = { fam, op: p.op, X: p.X, Y: p.Y, Z: p.Z, exprctx: p.exprctx || '@@', stmtctx: p.stmtctx || 'expr', scope: p.scope || 'sloppy', config: p.config || 'FULL', opkind: p.opkind }
-  leaf.key = [fam, leaf.op, leaf.X, leaf.Y, leaf.Z, leaf.exprctx, leaf.stmtctx, leaf.scope, leaf.config].map((x) => x === undefined ? '' : x).join('¦')
+  const leaf = { fam, op: p.op, X: p.X, Y: p.Y, Z: p.Z, S: p.S, exprctx: p.exprctx || '@@', stmtctx: p.stmtctx || 'expr', scope: p.scope || 'sloppy', config: p.config || 'FULL', opkind: p.opkind }
+  leaf.key = [fam, leaf.op, leaf.X, leaf.Y, leaf.Z, leaf.S, leaf.exprctx, leaf.stmtctx, leaf.scope, leaf.config].map((x) => x === undefined ? '' : x).join('¦')
   return leaf
 }
 
@@ -42,7 +42,7 @@ function familyA (tier, opts = {}) {
   let stats = { states: 0, transitions: 0 }
   const schemas = opts.kinds ? G.SCHEMAS.filter((s) => opts.kinds.includes(s.kind)) : G.SCHEMAS
   for (const sc of schemas) {
-    const dims = sc.slots.map((s) => ({ name: s, symbols: s === 'Z' ? atomsZ : atoms, free: true }))
+    const dims = sc.slots.map((s) => ({ name: s, symbols: s === 'S' ? G.SPREADS : s === 'Z' ? atomsZ : atoms, free: true }))
     const r = enumerate(dims, {})
     stats = addStats(stats, r.stats)
     stats.states++; stats.transitions++ // choosing the schema
@@ -89,7 +89,7 @@ function familyC (tier, opts = {}) {
         stats.states++; stats.transitions++
         const innerText = '(' + G.fill(inn.tpl, innerDefaults) + ')'
         const pick = { op: outer.tpl, opkind: outer.kind + '<' + inn.tpl }
-        for (const s of outer.slots) pick[s] = s === slot ? innerText : (s === 'X' ? 'a' : s === 'Y' ? 'g(2)' : 'b')
+        for (const s of outer.slots) pick[s] = s === slot ? (s === 'S' ? '[' + innerText + ']' : innerText) : (s === 'X' ? 'a' : s === 'Y' ? 'g(2)' : s === 'S' ? 'arr' : 'b')
         leaves.push(mkLeaf('C', pick))
       }
     }
@@ -109,10 +109,47 @@ function familyG (tier, opts = {}) {
   return { leaves, stats }
 }
 
+// M: files made of a SEQUENCE of functions/blocks (the transform status, telemetry and prologue are
+// state shared by the blocks of one file): all sequences up to length 3 over 10 function kinds
+const M_FNS = {
+  plus: (i) => `function f${i}(a, g, s) { return a + s }`,
+  temps: (i) => `function f${i}(a, g, s) { return a + g() + g() }`,
+  guard_nohook: (i) => `function f${i}(a, g, s) { return s?.prototype.trim() }`,
+  guard_hook: (i) => `function f${i}(a, g, s) { return s?.trim() }`,
+  notmod: (i) => `function f${i}(a, g, s) { return a * 2 }`,
+  literal: (i) => `function f${i}(a, g, s) { return 'a' + 'b' }`,
+  guard_then_inner: (i) => `function f${i}(a, g, s) { const t = s?.prototype.trim(); if (t) { return t + g() } return t }`,
+  arrow_block: (i) => `const f${i} = (a, g, s) => { return a.concat(g(), s) }`,
+  arrow_concise_top: (i) => `const f${i} = (a, g, s) => a + g()`,
+  class_method: (i) => `class K${i} { m(a, g, s) { return \`\${a}\${g()}\` } } const f${i} = (a, g, s) => new K${i}().m(a, g, s)`,
+  member_assign: (i) => `function f${i}(a, g, s) { const ob = { q: { p: 'p' } }; ob.q.p += g(); return ob.q.p }`
+}
+function familyM (tier, opts = {}) {
+  const names = Object.keys(M_FNS)
+  const L = opts.L || 3
+  const dims = []
+  for (let i = 0; i < L; i++) dims.push({ name: 'f' + i, symbols: [null].concat(names), free: true })
+  dims.push({ name: 'strict', symbols: [false, true], free: true })
+  const r = enumerate(dims, { valid: (cur, i) => !(i >= 1 && i < L && cur['f' + (i - 1)] === null && cur['f' + i] !== null) })
+  const leaves = []
+  for (const l of r.leaves) {
+    const seq = []
+    for (let i = 0; i < L; i++) if (l.pick['f' + i]) seq.push(l.pick['f' + i])
+    if (!seq.length) continue
+    const fns = seq.map((n, i) => M_FNS[n](i)).join('\n')
+    const calls = seq.map((n, i) => `(() => { try { return f${i}(E.a, () => { E.ev('g'); return E.fv }, E.s) } catch (e) { return 'threw ' + e.name } })()`).join(', ')
+    const code = `${l.pick.strict ? "'use strict';\n" : ''}${fns}\nfunction main(E) { return [${calls}] }`
+    const leaf = mkLeaf('M', { op: seq.join('>'), opkind: 'file', scope: l.pick.strict ? 'strict_file' : 'sloppy' })
+    leaf.code = code
+    leaves.push(leaf)
+  }
+  return { leaves, stats: r.stats }
+}
+
 function all (tier, opts = {}) {
   let leaves = []
   let stats = { states: 1, transitions: 0 }
-  const fams = { A: familyA, B: familyB, C: familyC, G: familyG }
+  const fams = { A: familyA, B: familyB, C: familyC, G: familyG, M: familyM }
   for (const f of (opts.families || ['A', 'B', 'C', 'G'])) {
     const r = fams[f](tier, opts[f] || {})
     leaves = leaves.concat(r.leaves)
@@ -125,4 +162,4 @@ function all (tier, opts = {}) {
   return { leaves: uniq, stats }
 }
 
-module.exports = { familyA, familyB, familyC, familyG, all, REP_OPS, REP_OPS_Q, CONFIGS, mkLeaf }
+module.exports = { familyA, familyB, familyC, familyG, familyM, M_FNS, all, REP_OPS, REP_OPS_Q, CONFIGS, mkLeaf }
